@@ -226,3 +226,35 @@ Fixpoint last_written (d : option cfg) (l : list rkev) : option cfg :=
 
 Definition rk_quiet (s : rkst) : bool :=
   negb (rk_locked s) && negb (dk_timer (rk_d s)) && negb (dk_sending (rk_d s)) && negb (rk_queue s).
+
+(* ---------- (1t) the FRR debouncer with deadlines ----------
+   config.go debouncer: `timeOut = time.After(reloadInterval)` is executed only
+   when timerSet is false; after a failing body `timeOut = time.After(failureRetryInterval)`.
+   [t_deadline] = the instant at which the pending timer channel becomes ready.
+   Events carry the instant at which the loop takes them.  A [Fire] is enabled
+   from the deadline on (a Go timer is never early); the other events are enabled
+   at any instant (when both channels are ready `select` may take either). *)
+Record tst := mk_t { t_st : st; t_deadline : option N }.
+Definition tinit : tst := mk_t init None.
+
+Definition tstep (iv rt : N) (s : tst) (x : N * ev) : option tst :=
+  let (now, e) := x in
+  match step (t_st s) e with
+  | None => None
+  | Some s' =>
+      match e with
+      | Fire ok =>
+          match t_deadline s with
+          | Some d => if N.leb d now then Some (mk_t s' (if ok then None else Some (now + rt)%N)) else None
+          | None => None
+          end
+      | _ => Some (mk_t s' (if timer (t_st s) then t_deadline s                (* if !timerSet { ... } *)
+                            else if timer s' then Some (now + iv)%N else None))
+      end
+  end.
+
+Fixpoint trun (iv rt : N) (s : tst) (l : list (N * ev)) : option tst :=
+  match l with
+  | [] => Some s
+  | x :: l' => match tstep iv rt s x with Some s' => trun iv rt s' l' | None => None end
+  end.
